@@ -20,9 +20,9 @@ CHECKS = {
    technique="deterministic simulation: seeded segment delivery schedules with loss/duplication/reordering/corruption between real Segmenter and Desegmenter",
    note="Trusted base: harness mirror of the sync loop and of receive_*_segment; the serving chain keeps its archive header at or above its compaction horizon (always true with mainnet parameters); one case in eight has a multi-chunk bitmap (1081+ real outputs)."),
  "C14": dict(engine="poolsim", cat="exploration", ref="5/C14",
-   text="A real chain plus a real TransactionPool, wired through the real servers::PoolToChainAdapter and ChainToPoolAndNetAdapter as Server::new wires them, are driven with seeded interleavings of submissions of every kind (valid, dependent on one or two pooled parents, conflicting, duplicate, aggregated incl. an under-fee remainder, under-fee, fee-shifted honest / underpaying, output-less, bad signature, immature / just-mature / mixed-maturity coinbase spends, future/next lock height, fluffing of a stemmed transaction, stem/fluff with simulated relay failures), blocks mined from the mineable set, blocks with arbitrary pool subsets and conflicting spends, headers arriving ahead of their blocks, reorgs and capacity shrinks (every schedule contains a shrink below the current size followed by an under-fee and a valid submission); after every operation the pool's joint validity on the current head, per-entry fee/weight/validity, stempool+txpool validity and the mineable set are checked, and blocks built from the mineable set must be accepted by the chain.",
-   technique="deterministic simulation: seeded interleavings of pool submissions, block connections, reorgs and evictions with invariants checked after every step",
-   note="Trusted base: harness wallet/miner; a block connection (process_block including the adapter's reconcile calls) is treated as atomic; reorg-cache ageing uses an explicit cutoff."),
+   text="A real chain plus a real TransactionPool, wired through the real servers::PoolToChainAdapter and ChainToPoolAndNetAdapter as Server::new wires them, are driven with seeded interleavings of submissions of every kind (valid, dependent on one or two pooled parents, conflicting, duplicate, aggregated incl. an under-fee remainder, under-fee, fee-shifted honest / underpaying, output-less, bad signature, immature / just-mature / mixed-maturity coinbase spends, future/next lock height, fluffing of a stemmed transaction, stem/fluff with simulated relay failures), blocks mined from the mineable set, blocks with arbitrary pool subsets and conflicting spends, headers arriving ahead of their blocks, reorgs and capacity shrinks (every schedule contains a shrink below the current size followed by an under-fee and a valid submission); after every operation the pool's joint validity on the current head, per-entry fee/weight/validity, stempool+txpool validity and the mineable set are checked, and blocks built from the mineable set must be accepted by the chain. Every other run is a network run (E11 netsim): the node carries its complete p2p stack and the real PoolToNetAdapter, submissions and blocks arrive as peer messages from lock-stepped simulated peers (transactions also announced by kernel hash, blocks also header-first and compact with the node's requests served), an outbound simulated peer is the node's Dandelion relay in three of four such runs, and before every block mined from the pool the node's own mine_block::get_block must return a block within the weight limit that a replica of the node's data directory accepts.",
+   technique="deterministic simulation: seeded interleavings of pool submissions, block connections, reorgs and evictions with invariants checked after every step; lock-stepped simulated peers against the real p2p stack",
+   note="Trusted base: harness wallet/miner (the history's blocks; the node's own block builder is run and judged on a replica); a block connection (process_block including the adapter's reconcile calls) is treated as atomic; reorg-cache ageing uses an explicit cutoff; in network runs acceptance is read from the pool's contents."),
  "C19": dict(engine="wiresim", cat="fault_enumeration", ref="5/C19",
    text="The real Codec / write_message / read_message / Handshake run on one end of a loopback socket whose other end and fragmentation are owned by the simulator (fragment i+1 is released when FIONREAD reports fragment i consumed). Message sequences over every type and protocol versions 1/2/3/1000 (header lists of 0..65 headers, archive + streamed attachment, unknown types) are delivered unfragmented, at every single split point, with random multi-splits and as a one-byte dribble and must be read back as the identical sequence; over-limit and wrong-magic frame headers of every type must be refused having consumed exactly 11 bytes and without a large allocation; the handshake must settle on min(version), refuse another genesis and itself.",
    technique="deterministic simulation: lock-stepped loopback transport with enumerated fragmentation and frame-limit faults",
@@ -130,7 +130,7 @@ def main():
              "kind_free_text": "seeded baton scheduler over real threads on one real Chain"},
             {"name": "dbsim", "path": "/verif/sim/src/dbsim.rs", "serves_properties": [p for p in claimed if p == "C18"],
              "kind_free_text": "real LMDB wrapper against a nested-transaction map model; seeded thread schedules; crash points around commit"},
-            {"name": "netsim", "path": "/verif/sim/src/netsim.rs", "serves_properties": [p for p in claimed if p in ("C03", "C06")],
+            {"name": "netsim", "path": "/verif/sim/src/netsim.rs", "serves_properties": [p for p in claimed if p in ("C03", "C06", "C14")],
              "kind_free_text": "one real node with its complete p2p stack (Peers, Peer, Handshake, conn threads, Protocol, servers adapters, pool, chain) against simulated remote peers on lock-stepped loopback sockets"},
             {"name": "chainsim", "path": "/verif/sim/src/chainsim.rs", "serves_properties": [p for p in claimed if CHECKS[p]["engine"] == "chainsim" or p == "C08"],
              "kind_free_text": "deterministic simulation of N real Chain nodes on a simulated network with byzantine inputs"},
